@@ -546,6 +546,8 @@ func (g *Generator) generateBindingFile(file *protogen.File) error {
 	gf.P()
 	gf.P("// Handle repeated fields (arrays)")
 	gf.P("if field.IsList() {")
+	gf.P("// URL values replace whatever the body carried for this field, as for scalars")
+	gf.P("reflectMsg.Clear(field)")
 	gf.P("list := reflectMsg.Mutable(field).List()")
 	gf.P("for _, v := range values {")
 	gf.P("converted, err := convertStringToFieldValue(v, field.Kind())")
